@@ -4,7 +4,7 @@
 use super::*;
 use linfa_clustering::verif_hooks_c09 as hooks;
 use linfa_clustering::{IncrKMeansError, KMeans, KMeansInit};
-use linfa_nn::distance::{Distance, L1Dist, L2Dist, LInfDist};
+use linfa_nn::distance::{Distance, L1Dist, L2Dist, LInfDist, LpDist};
 use rand_xoshiro::rand_core::SeedableRng;
 use rand_xoshiro::Xoshiro256Plus;
 
@@ -14,6 +14,8 @@ pub(super) enum Metric {
     L2,
     L1,
     LInf,
+    /// `LpDist(p)`: `(Σ|a-b|^p)^(1/p)`, reduced distance = the distance (trait default); oracle only
+    Lp(f64),
 }
 impl Metric {
     fn name(self) -> &'static str {
@@ -21,6 +23,7 @@ impl Metric {
             Metric::L2 => "l2",
             Metric::L1 => "l1",
             Metric::LInf => "linf",
+            Metric::Lp(_) => "lp",
         }
     }
     fn rdist(self, a: &[f64], b: &[f64]) -> f64 {
@@ -40,6 +43,7 @@ impl Metric {
                 s
             }
             Metric::LInf => a.iter().zip(b).map(|(x, y)| (x - y).abs()).fold(0.0, f64::max),
+            Metric::Lp(pw) => a.iter().zip(b).map(|(x, y)| (x - y).abs().powf(pw)).sum::<f64>().powf(1.0 / pw),
         }
     }
     fn dist(self, a: &[f64], b: &[f64]) -> f64 {
@@ -83,29 +87,79 @@ struct Replay {
 /// recurrence, cumulative counts, running mean, truthful `converged`, inertia of the batch.
 /// Returns false if the batch had an inexact near-tie (then only convergence and inertia are judged).
 #[allow(clippy::too_many_arguments)]
-fn km_batch_oracle(ctx: &mut Ctx, class: &str, bi: usize, m: Metric, rp: &mut Replay, b: &Rows, tol: f64, got_cs: &Rows, got_cnt: &[f64], conv: bool, inertia: f64, t: f64) {
+fn km_batch_oracle(ctx: &mut Ctx, class: &str, bi: usize, m: Metric, rp: &mut Replay, b: &Rows, tol: f64, got_cs: &Rows, got_cnt: &[f64], conv: bool, inertia: f64, t: f64) -> bool {
     let k = rp.cs.len();
     let p = rp.cs[0].len();
-    let mut want = rp.cs.clone();
     let mut tie = false;
     let mut inert = 0.0;
+    // per observation the clusters it may be assigned to: the nearest centroid; on an EXACT tie (lattice inputs,
+    // f64) every minimiser — the statement promises the recurrence and the cumulative counts, not a tie rule
+    let mut choices: Vec<Vec<usize>> = vec![];
     for x in b {
         let (c, d, gap) = nearest(m, &rp.cs, x);
-        // an exact tie is decided by the first-minimum rule on lattice inputs; a gap within rounding distance is not
-        // judged.  In f32 (t > 1e-12) a tie that is exact for the oracle (f64 arithmetic on the widened centroids) need
-        // not be exact for the implementation (f32 distance sums of non-lattice centroids), so it is not judged either
-        if (gap != 0.0 || t > 1e-12) && gap < 1e-9f64.max(t) {
-            tie = true;
+        // a gap within rounding distance is not judged.  In f32 (t > 1e-12) a tie that is exact for the oracle
+        // (f64 arithmetic on the widened centroids) need not be exact for the implementation (f32 distance sums
+        // of non-lattice centroids), so it is not judged either
+        if gap != 0.0 || t > 1e-12 {
+            if gap < 1e-9f64.max(t) {
+                tie = true;
+            }
+            choices.push(vec![c]);
+        } else {
+            choices.push((0..k).filter(|i| m.rdist(&rp.cs[*i], x) == d).collect());
+            tag("ok:km:exact_tie_point");
         }
         inert += d;
-        rp.cnt[c] += 1;
-        for j in 0..p {
-            rp.sums[c][j] += x[j];
-            want[c][j] += (x[j] - want[c][j]) / rp.cnt[c] as f64;
+    }
+    let combos = choices.iter().fold(1usize, |a, c| a.saturating_mul(c.len()));
+    if combos > 256 {
+        tie = true;
+    }
+    // the recurrence for one admissible assignment
+    let apply = |assign: &[usize]| -> (Rows, Vec<usize>, Rows) {
+        let (mut want, mut cnt, mut sums) = (rp.cs.clone(), rp.cnt.clone(), rp.sums.clone());
+        for (x, &c) in b.iter().zip(assign) {
+            cnt[c] += 1;
+            for j in 0..p {
+                sums[c][j] += x[j];
+                want[c][j] += (x[j] - want[c][j]) / cnt[c] as f64;
+            }
+        }
+        (want, cnt, sums)
+    };
+    let first: Vec<usize> = choices.iter().map(|c| c[0]).collect();
+    let mut picked = apply(&first);
+    if !tie && combos > 1 {
+        let mut idx = vec![0usize; choices.len()];
+        'search: loop {
+            let assign: Vec<usize> = idx.iter().zip(&choices).map(|(i, c)| c[*i]).collect();
+            let cand = apply(&assign);
+            if got_cnt.iter().zip(&cand.1).all(|(a, b)| *a == *b as f64) && (0..k).all(|c| near_v(&got_cs[c], &cand.0[c], t)) {
+                picked = cand;
+                break 'search;
+            }
+            let mut q = 0;
+            loop {
+                if q == idx.len() {
+                    break 'search;
+                }
+                idx[q] += 1;
+                if idx[q] < choices[q].len() {
+                    break;
+                }
+                idx[q] = 0;
+                q += 1;
+            }
         }
     }
+    let (want, cnt, sums) = picked;
+    rp.cnt = cnt;
+    rp.sums = sums;
     inert /= b.len() as f64;
+    let pre = class.split(':').next().unwrap_or("km");
+    tag(&format!("ok:{}:{}:{}", pre, m.name(), if conv { "converged" } else { "not_converged" }));
     if !tie {
+        tag(&format!("ok:{}:batch_judged", pre));
         ctx.require(got_cnt.iter().zip(&rp.cnt).all(|(a, b)| *a == *b as f64), "cumulative_counts", class, || format!("batch {}: cluster_count {:?}, cumulative assignments {:?}", bi, got_cnt, rp.cnt));
         for c in 0..k {
             ctx.require(near_v(&got_cs[c], &want[c], t), "recurrence", class, || format!("batch {}: centroid {} = {:?}, recurrence from the previous state gives {:?}", bi, c, got_cs[c], want[c]));
@@ -133,6 +187,7 @@ fn km_batch_oracle(ctx: &mut Ctx, class: &str, bi: usize, m: Metric, rp: &mut Re
         ctx.require(conv == (shift < tol), "converged_truthful", class, || format!("batch {}: centroid shift {} tolerance {} reported converged={}", bi, shift, tol, conv));
     }
     rp.cs = got_cs.clone();
+    !tie
 }
 
 /// `predict` / `transform` of the model after the history: nearest of the *current* centroids
@@ -144,7 +199,10 @@ fn km_predict_oracle<D: Distance<f64>>(ctx: &mut Ctx, class: &str, m: Metric, mo
     for (i, x) in xs.iter().enumerate() {
         let (c, d, gap) = nearest(m, &cs, x);
         if gap == 0.0 || gap > 1e-9 {
-            ctx.require(pred[i] == c, "predict_closest_centroid", class, || format!("point {:?}: predict {} but the closest centroid of the fitted model is {}", x, pred[i], c));
+            tag("ok:km:predict_judged");
+            // on an exact tie any minimiser is a closest centroid
+            let okp = pred[i] == c || (gap == 0.0 && pred[i] < cs.len() && m.rdist(&cs[pred[i]], x) == d);
+            ctx.require(okp, "predict_closest_centroid", class, || format!("point {:?}: predict {} but the closest centroid of the fitted model is {}", x, pred[i], c));
         }
         ctx.require(near(tr[i], d, 1e-12), "transform_min_distance", class, || format!("point {:?}: transform {} but the distance to the closest centroid is {}", x, tr[i], d));
     }
@@ -179,10 +237,39 @@ fn km_history<D: Distance<f64> + std::fmt::Debug + 'static>(ctx: &mut Ctx, dist_
 
 fn op_km(em: &mut Em, m: Metric, c0: &Rows, batches: &[Rows], tol: f64, seed: u64) {
     let op = format!("km tol={} m={} c0={} x={}", hex64(tol), m.name(), list2(c0.iter().map(|x| x.iter()), |x| hex64(*x)), list3(batches.iter().map(|r| r.iter().map(|x| x.iter())), |x| hex64(*x)));
-    em.case_valid(op, "km", |ctx| match m {
+    case_t(em, op, "km", |ctx| match m {
         Metric::L2 => km_history(ctx, L2Dist, m, c0, batches, tol, seed),
         Metric::L1 => km_history(ctx, L1Dist, m, c0, batches, tol, seed),
         Metric::LInf => km_history(ctx, LInfDist, m, c0, batches, tol, seed),
+        Metric::Lp(pw) => km_history(ctx, LpDist(pw), m, c0, batches, tol, seed),
+    });
+}
+
+/// the same history with `LpDist(p)` (p = 1.5, 3; powf on both sides: everything judged at 1e-9, exact ties
+/// not judged).  Oracle only: recurrence, cumulative counts, inertia and — the point of this variant — the
+/// truthful converged / not-converged report for a metric whose reduced distance is the distance itself.
+fn op_km_lp(em: &mut Em, pw: f64, c0: &Rows, batches: &[Rows], tol: f64, seed: u64) {
+    let op = format!("#km_lp pw={} tol={} c0={} x={}", hex64(pw), hex64(tol), list2(c0.iter().map(|x| x.iter()), |x| hex64(*x)), list3(batches.iter().map(|r| r.iter().map(|x| x.iter())), |x| hex64(*x)));
+    case_t(em, op, "km_lp", |ctx| {
+        let p = c0[0].len();
+        let k = c0.len();
+        let m = Metric::Lp(pw);
+        let params = KMeans::params_with(k, Xoshiro256Plus::seed_from_u64(seed), LpDist(pw)).tolerance(tol).init_method(KMeansInit::Precomputed(arr2(c0, p))).check().expect("valid k-means parameters");
+        let mut model: Option<KMeans<f64, LpDist<f64>>> = None;
+        let mut rp = Replay { cs: c0.clone(), cnt: vec![0; k], sums: vec![vec![0.0; p]; k], c0: c0.clone(), tainted: false };
+        for (bi, b) in batches.iter().enumerate() {
+            let ds = DatasetBase::from(arr2(b, p));
+            let (mo, conv) = match params.fit_with(model.take(), &ds) {
+                Ok(mo) => (mo, true),
+                Err(IncrKMeansError::NotConverged(mo)) => (mo, false),
+                Err(e) => panic!("unexpected error {}", e),
+            };
+            let got_cs = to_rows(mo.centroids());
+            let got_cnt: Vec<f64> = mo.cluster_count().to_vec();
+            km_batch_oracle(ctx, "km_lp", bi, m, &mut rp, b, tol, &got_cs, &got_cnt, conv, mo.inertia(), 1e-9);
+            model = Some(mo);
+        }
+        "-".to_string()
     });
 }
 
@@ -192,7 +279,7 @@ fn op_km(em: &mut Em, m: Metric, c0: &Rows, batches: &[Rows], tol: f64, seed: u6
 /// (running mean judged at 2e-4); assignments with a relative distance gap below 2e-5 are not judged
 fn op_km_f32(em: &mut Em, c0: &Rows, batches: &[Rows], tol: f64, seed: u64) {
     let op = format!("#km_f32 tol={} c0={} x={}", hex64(tol), list2(c0.iter().map(|x| x.iter()), |x| hex64(*x)), list3(batches.iter().map(|r| r.iter().map(|x| x.iter())), |x| hex64(*x)));
-    em.case_valid(op, "km_f32", |ctx| {
+    case_t(em, op, "km_f32", |ctx| {
         let p = c0[0].len();
         let k = c0.len();
         let a32 = |r: &Rows| Array2::<f32>::from_shape_fn((r.len(), p), |(i, j)| r[i][j] as f32);
@@ -283,20 +370,16 @@ fn km_init_history<D: Distance<f64> + std::fmt::Debug + 'static>(ctx: &mut Ctx, 
     }
     let min_inertia = cands.iter().map(|c| c.1).fold(f64::INFINITY, f64::min);
     // which candidates explain the model after the first batch?  (None: an inexact near-tie in the assignment)
+    // does the documented recurrence applied to this candidate (any minimiser on an exact tie) give the model
+    // after the first batch?  None: an inexact near-tie in the assignment
     let explain = |c0: &Rows| -> Option<bool> {
-        let mut want = c0.clone();
-        let mut cnt = vec![0usize; k];
-        for x in &batches[0] {
-            let (c, _, gap) = nearest(m, c0, x);
-            if gap != 0.0 && gap < 1e-9 {
-                return None;
-            }
-            cnt[c] += 1;
-            for j in 0..p {
-                want[c][j] += (x[j] - want[c][j]) / cnt[c] as f64;
-            }
+        let mut rp = Replay { cs: c0.clone(), cnt: vec![0; k], sums: vec![vec![0.0; p]; k], c0: c0.clone(), tainted: false };
+        let mut scratch = Ctx { fails: vec![], trivial: false };
+        let judged = km_batch_oracle(&mut scratch, &class, 0, m, &mut rp, &batches[0], tol, &got[0].0, &got[0].1, got[0].2, got[0].3, 1e-12);
+        if !judged {
+            return None;
         }
-        Some((0..k).all(|c| near_v(&got[0].0[c], &want[c], 1e-12)) && got[0].1.iter().zip(&cnt).all(|(a, b)| *a == *b as f64))
+        Some(!scratch.fails.iter().any(|f| f.0 == "cumulative_counts" || f.0 == "recurrence"))
     };
     let ex: Vec<Option<bool>> = cands.iter().map(|c| explain(&c.0)).collect();
     if ex.iter().any(|e| e.is_none()) {
@@ -305,6 +388,10 @@ fn km_init_history<D: Distance<f64> + std::fmt::Debug + 'static>(ctx: &mut Ctx, 
     let explaining: Vec<usize> = (0..cands.len()).filter(|i| ex[*i] == Some(true)).collect();
     ctx.require(!explaining.is_empty(), "function_of_history", &class, || format!("the model after the first batch {:?} is not the recurrence applied to any of the {} initialisations drawn from the parameters' generator", got[0].0, n_runs));
     if !explaining.is_empty() {
+        tag(&format!("ok:km_init:{}:selection_judged", init.name()));
+        if n_runs > 1 && cands.iter().any(|c| c.1 > min_inertia * (1.0 + 1e-9)) {
+            tag("ok:km_init:selection_judged:inertias_differ");
+        }
         let ok = explaining.iter().any(|i| cands[*i].1 <= min_inertia * (1.0 + 1e-12));
         ctx.require(ok, "init_lowest_inertia", &class, || format!("n_runs={}: inertias of the initialisations {:?}, the model continues one with inertia {:?}", n_runs, cands.iter().map(|c| c.1).collect::<Vec<_>>(), explaining.iter().map(|i| cands[*i].1).collect::<Vec<_>>()));
         // Clusters that received points forget their initial centroid, so several initialisations can lead to the
@@ -332,11 +419,12 @@ fn km_init_history<D: Distance<f64> + std::fmt::Debug + 'static>(ctx: &mut Ctx, 
 fn op_km_init(em: &mut Em, m: Metric, init: Init, k: usize, n_runs: usize, batches: &[Rows], tol: f64, seed: u64) {
     let op = format!("#km_init m={} init={} k={} n_runs={} tol={} seed={} x={}", m.name(), init.name(), k, n_runs, hex64(tol), seed, list3(batches.iter().map(|r| r.iter().map(|x| x.iter())), |x| hex64(*x)));
     em.count(&format!("km_init:{}", init.name()));
-    em.case_valid(op, "km_init", |ctx| {
+    case_t(em, op, "km_init", |ctx| {
         match m {
             Metric::L2 => km_init_history(ctx, L2Dist, m, init, k, n_runs, batches, tol, seed),
             Metric::L1 => km_init_history(ctx, L1Dist, m, init, k, n_runs, batches, tol, seed),
             Metric::LInf => km_init_history(ctx, LInfDist, m, init, k, n_runs, batches, tol, seed),
+            Metric::Lp(pw) => km_init_history(ctx, LpDist(pw), m, init, k, n_runs, batches, tol, seed),
         }
         "-".to_string()
     });
@@ -362,6 +450,9 @@ pub(super) fn run(em: &mut Em, rng: &mut Rng) {
         op_km(em, m, &c0, &batches, tol, seed);
         if i % 4 == 0 {
             op_km_f32(em, &c0, &batches, tol, seed);
+        }
+        if i % 4 == 1 {
+            op_km_lp(em, *rng.pick(&[1.5, 3.0]), &c0, &batches, tol, seed);
         }
     }
     // first-batch initialisation inside fit_with(None, ..)
